@@ -108,12 +108,12 @@ func (o *replOS) Readline(opts interp.ReadlineOpts) (string, error) {
 }
 
 type ReplCase struct {
-	Kind   string `json:"kind"`
+	Kind   string   `json:"kind"`
 	Prefix []string `json:"prefix,omitempty"` // lines evaluated at the same level before the line under test
-	Depth  int    `json:"depth"`
-	Prog   string `json:"prog"`
-	FireAt int    `json:"fire_at"`
-	WaitMs int    `json:"wait_ms"`
+	Depth  int      `json:"depth"`
+	Prog   string   `json:"prog"`
+	FireAt int      `json:"fire_at"`
+	WaitMs int      `json:"wait_ms"`
 }
 
 type replObs struct {
